@@ -27,7 +27,7 @@ def sh(cmd, **kw):
 def main():
     harmless = '--harmless' in sys.argv
     args = [a for a in sys.argv[1:] if not a.startswith('--')]
-    ids = args or sorted(d for d in os.listdir(os.path.join(VERIF, 'seeded')) if re.match(r'C\d+-b?\d+$', d))
+    ids = args or sorted(d for d in os.listdir(os.path.join(VERIF, 'seeded')) if re.match(r'C\d+-[bc]?\d+$', d))
     if '--harmless-agents' in sys.argv:
         return run_harmless(only_prefix='agent', by_files=True)
     if '--kernel' in sys.argv:
